@@ -352,7 +352,7 @@ def _(self: RangeK, survey: SurveyQ) -> XNode:
 
 @contract("InputQuestion.build_xml")
 def _(self: InputK, survey: SurveyQ) -> XNode:
-    properties("C04", "C02", "C09")
+    properties("C04", "C02", "C09", "C03")
     no_native("needs survey-element objects: exercised through the e2e oracles and the runtime monitor")
     may_raise(PyXFormError, when=True)
     Cd = some(self.control)
